@@ -97,6 +97,10 @@ def install(M):
         t[p + "to_ne_bytes"] = M.m_opaque
         t[p + "trailing_zeros"] = M.m_opaque_int
         t[p + "count_ones"] = M.m_opaque_int
+        t[f"std::cmp::impls::<impl std::cmp::Ord for {w}>::cmp"] = X.i_cmp
+        t[f"std::cmp::impls::<impl std::cmp::PartialOrd for {w}>::partial_cmp"] = lambda e, st, a: X.i_cmp(e, st, a, partial=True)
+    t["std::cmp::Ord::cmp"] = X.i_cmp
+    t["std::cmp::PartialOrd::partial_cmp"] = lambda e, st, a: X.i_cmp(e, st, a, partial=True)
     for k, v in base.items():
         if k.startswith("core::num::"):
             t[k] = v          # the models the pinned tree already relies on stay as they are
@@ -396,6 +400,16 @@ class Ext:
             return None
         out = [(s, "val", x) for s in self.I.assume(st, flit(le(x.l, y.l)))]
         out += [(s, "val", y) for s in self.I.assume(st, flit(gt(x.l, y.l)))]
+        return out
+
+    def i_cmp(self, e, st, a, partial=False):
+        x, y = self._deref_int(st, a[0]), self._deref_int(st, a[1])
+        if x is None or y is None:
+            return None
+        out = []
+        for name, f in (("Less", lt(x.l, y.l)), ("Equal", eq(x.l, y.l)), ("Greater", gt(x.l, y.l))):
+            v = StructV("std::cmp::Ordering", name, {})
+            out += [(s, "val", some(v) if partial else v) for s in self.I.assume(st, flit(f))]
         return out
 
     def i_clamp(self, e, st, a):
